@@ -6,9 +6,15 @@ use monlib::Report;
 
 pub fn run(args: &Args) -> Report {
     let total = args.n(6000, 200_000);
-    let plats = args.platforms_or(&[P::Native, P::Portable]);
+    let small = args.get("miri-small") == Some("1");
+    let plats = if small { args.platforms_or(&[P::Portable, P::Sse2, P::Sse41, P::Avx2]) } else { args.platforms_or(&[P::Native, P::Portable]) };
     let guard = args.get("guard") == Some("1");
-    let cfg = Cfg { max_ops: 14, max_total: if args.thorough { 20 << 20 } else { 2 << 20 }, rich: cfg!(feature = "full"), guard, big_chance: (1, 40) };
+    let cfg = if small {
+        // interpreter-sized histories (Miri is ~4 orders of magnitude slower)
+        Cfg { max_ops: 5, max_total: 9 * 1024, rich: cfg!(feature = "full"), guard: false, big_chance: (0, 1) }
+    } else {
+        Cfg { max_ops: 14, max_total: if args.thorough { 20 << 20 } else { 2 << 20 }, rich: cfg!(feature = "full"), guard, big_chance: (1, 40) }
+    };
     let rep = run::run_cases(args, 2, total, |idx, rng, rep| {
         let p = plats[(idx % plats.len() as u64) as usize];
         monlib::crash::set_case(idx, p as u64, 2);
